@@ -91,12 +91,24 @@ def run(res):
         args = ["-s", src if how in ("absolute", "symlink") else os.path.relpath(src, d)]
         target = {"writable": "out/%s", "missing-dir": "nodir/%s", "is-a-directory": "out/%s", "overwrite": "out/%s", "write-fails": "out/%s"}[loc]
         paths = {"code": os.path.join(d, "src", stem + ".hex"), "eeprom": os.path.join(d, "src", stem + ".eep.hex")}
+        # output names as given: absolute, or relative to the WORKING directory (not to the source); plain, with blanks, with
+        # non-ASCII characters, and with bytes that are no valid UTF-8 (file names are byte strings)
+        oname, ename = [("flash.hex", "ee.hex"), ("fl ash.hex", "e e.hex"), ("pr\u00fcfung.hex", "\u20ac.hex"), (b"pr\xfcf.hex", b"\xff\xfe.hex"), ("flash", "ee"),
+                        ("FLASH.HEX", "flash.hex.eep")][(n // 5) % 6]
+        rel_out = (n % 3 == 1)
+
+        def given(nm):
+            if loc == "write-fails":
+                return "/dev/full", "/dev/full"
+            full = os.path.join(os.fsencode(d), os.fsencode(target % "X").replace(b"X", nm if isinstance(nm, bytes) else os.fsencode(nm)))
+            arg = os.path.relpath(full, os.fsencode(d)) if rel_out else full
+            return full.decode("utf-8", "surrogateescape"), arg
         if use_o:
-            paths["code"] = os.path.join(d, target % "flash.hex") if loc != "write-fails" else "/dev/full"
-            args += ["-o", paths["code"]]
+            paths["code"], a = given(oname)
+            args += ["-o", a]
         if use_e:
-            paths["eeprom"] = os.path.join(d, target % "ee.hex") if loc != "write-fails" else "/dev/full"
-            args += ["-e", paths["eeprom"]]
+            paths["eeprom"], a = given(ename)
+            args += ["-e", a]
         if loc == "is-a-directory":
             for k, u in (("code", use_o), ("eeprom", use_e)):
                 if u:
@@ -110,7 +122,8 @@ def run(res):
         before = snapshot(d)
         p = subprocess.run([binary] + args, cwd=d, env=env, stdout=subprocess.PIPE, stderr=subprocess.STDOUT, text=True, timeout=60)
         after = snapshot(d)
-        cases.append(dict(source=sname, args=[a.replace(d, "<dir>") for a in args], location=loc + "/" + how, exit=p.returncode, stdout=p.stdout[-400:],
+        cases.append(dict(source=sname, args=[(a.decode("utf-8", "backslashreplace") if isinstance(a, bytes) else a).encode("utf-8", "backslashreplace").decode().replace(d, "<dir>") for a in args],
+                          location=loc + "/" + how + ("/relative-output" if rel_out else ""), exit=p.returncode, stdout=p.stdout[-400:],
                           created={k: v for k, v in after.items() if k not in before or (loc == "overwrite" and after[k] != before[k])},
                           changed=[k for k in before if after.get(k) != before[k] and not (loc == "overwrite" and k in (os.path.relpath(paths["code"], d), os.path.relpath(paths["eeprom"], d)))],
                           paths={k: os.path.relpath(v, d) for k, v in paths.items()}, redirected=dict(code=use_o, eeprom=use_e), dir=d))
